@@ -83,7 +83,7 @@ def run(chk):
         chk.evaluations += 1
         t = c.split()
         chk.count(t[0])
-        if a.startswith(("PANIC", "CRASH", "TIMEOUT", "MISMATCH")):
+        if a.startswith(("PANIC", "CRASH", "TIMEOUT", "HANG", "MISMATCH")):
             chk.monitor_fail("timeout code panicked or its two entry points disagree", dict(case=c, impl=a))
             continue
         if t[0] == "tparse":
